@@ -111,14 +111,18 @@ func (r *runner) passwordProbesOn(e *env, password string, preseed bool) {
 			}
 			ctx.Eval(1)
 			ctx.Count("wrong_password_cases", 1)
-			ctx.Distinct("wrongpw|resp|" + w.class + "|" + form)
+			class := w.class
+			if form == "noarg-extra" {
+				class = "noarg"
+			}
+			ctx.Distinct("wrongpw|resp|" + class + "|" + form)
 			accepted := !r1.IsErr() || !r2.IsErr() || !r3.IsErr()
 			replay := map[string]any{"requirepass": password, "set_via_config_file": preseed, "commands": [][]string{authCmd, read, write},
 				"form": form, "replies": []string{r1.String(), r2.String(), r3.String()}}
 			if w.judge || form == "noarg-extra" {
 				if accepted {
-					ctx.Violation("auth:wrong-password-accepted:"+w.class, fmt.Sprintf("requirepass %q: AUTH %q (%s, %s) -> %s, then GET -> %s, SET -> %s",
-						password, w.pw, w.class, form, r1.String(), trunc(r2.String(), 120), r3.String()), replay)
+					ctx.Violation("auth:wrong-password-accepted:"+class, fmt.Sprintf("requirepass %q: %q (%s, %s) -> %s, then GET -> %s, SET -> %s",
+						password, authCmd, class, form, r1.String(), trunc(r2.String(), 120), r3.String()), replay)
 				}
 			} else {
 				borderline[w.class] = r1.String()
@@ -157,6 +161,40 @@ func (r *runner) passwordProbesOn(e *env, password string, preseed bool) {
 		}
 	}
 	ctx.Set("whitespace_padded_password_replies", borderline)
+	// the whole table (plain) in ONE write on an unauthenticated connection: every reply an error, except the exempt commands
+	{
+		var cmds []*cmdSpec
+		var raw []byte
+		for _, cs := range r.table {
+			if cs.fresh || cs.live {
+				continue
+			}
+			a, err := r.argsFor(e, cs)
+			if err != nil {
+				continue
+			}
+			cmds = append(cmds, cs)
+			raw = append(raw, respc.Encode(a...)...)
+		}
+		if c, err := dial(e.s.Addr()); err == nil {
+			c.WriteRaw(raw)
+			for _, cs := range cmds {
+				rp, err := c.Recv()
+				if err != nil {
+					ctx.Inconclusive("pipelined unauthenticated table: " + err.Error())
+					break
+				}
+				ctx.Eval(1)
+				ctx.Count("noauth_pipelined_cells", 1)
+				ctx.Distinct(mNoauth + "|" + cs.name + "|pipelined|resp")
+				if !rp.IsErr() && !cs.authExempt {
+					ctx.Violation("gate:noauth:"+strings.ToLower(strings.ReplaceAll(cs.name, " ", "-"))+":pipelined", fmt.Sprintf("requirepass set: %s inside an unauthenticated pipeline got %s", cs.name, trunc(rp.String(), 120)),
+						map[string]any{"requirepass": password, "pipeline": "every non-streaming row of the table in one write", "command": cs.name, "reply": rp.String()})
+				}
+			}
+			c.Close()
+		}
+	}
 	after, err := e.observe()
 	if err != nil {
 		ctx.Inconclusive("password probe observe: " + err.Error())
@@ -316,7 +354,9 @@ func (r *runner) protectedProbes(password string) {
 			c.Send("SET", "fleet", "intruder", "POINT", "1", "1")
 			rs2, end2 := readAll(c, 1500*time.Millisecond)
 			replay["replies_after_sending"] = repliesText(rs2)
-			if len(rs2) > 0 {
+			if len(rs2) > 0 && !(rs2[0].Kind == '-' && strings.HasPrefix(rs2[0].Str, "DENIED")) {
+				ctx.Violation("protected:non-loopback-served", fmt.Sprintf("protected mode: a non-loopback peer was not denied on connect and its SET was answered %s", trunc(rs2[0].String(), 80)), replay)
+			} else if len(rs2) > 0 {
 				ctx.Violation("protected:input-read-before-denial", fmt.Sprintf("non-loopback peer was not refused while silent (1.5 s, server responsive); after it sent a command it received %s (%s): input is read before the denial",
 					trunc(rs2[0].String(), 80), end2), replay)
 			} else {
@@ -327,7 +367,11 @@ func (r *runner) protectedProbes(password string) {
 	}
 
 	// P3: every command of the table as the first bytes of a non-loopback connection
+	v0 := ctx.Violations()
 	for _, cs := range r.table {
+		if ctx.Violations() >= v0+4 {
+			break
+		}
 		args, err := r.argsFor(e, cs)
 		if err != nil {
 			ctx.Inconclusive("protected: " + err.Error())
